@@ -29,6 +29,12 @@ package stmt
 //@ uf docRangeEnd([]byte) int64
 //@ uf docInterval([]byte) int64
 //@ uf docStorageInterval([]byte) int64
+//@ # a function call envelope: function type and parameter documents; docOK / exprOK: the JSON library / the expression
+//@ # decoder accepts the bytes
+//@ uf docFuncType([]byte) int
+//@ uf docParams([]byte) [][]byte
+//@ uf docOKCall([]byte) bool
+//@ uf exprOK([]byte) bool
 //@ func Marshal
 //@   assume
 //@   modifies nothing
@@ -38,11 +44,14 @@ package stmt
 //@   assume
 //@   modifies nothing
 //@   ensures result1 == nil ==> result0 == cast(exprOf(value), "Expr")
+//@   ensures (result1 == nil) == exprOK(value)
 //@ end
 //@ extern func github.com/lindb/common/pkg/encoding.JSONUnmarshal
 //@   modifies cast(v, "*innerQuery").Condition when typeis(v, "*innerQuery"), cast(v, "*innerQuery").Having when typeis(v, "*innerQuery"), cast(v, "*innerQuery").SelectItems when typeis(v, "*innerQuery"), cast(v, "*innerQuery").OrderByItems when typeis(v, "*innerQuery"), cast(v, "*innerQuery").GroupBy when typeis(v, "*innerQuery"), cast(v, "*innerQuery").MetricName when typeis(v, "*innerQuery"), cast(v, "*innerQuery").Namespace when typeis(v, "*innerQuery"), cast(v, "*innerQuery").Limit when typeis(v, "*innerQuery"), cast(v, "*innerQuery").Explain when typeis(v, "*innerQuery"), cast(v, "*innerQuery").AllFields when typeis(v, "*innerQuery"), cast(v, "*innerQuery").IntervalRatio when typeis(v, "*innerQuery"), cast(v, "*innerQuery").AutoGroupByTime when typeis(v, "*innerQuery"), cast(v, "*innerQuery").TimeRange when typeis(v, "*innerQuery"), cast(v, "*innerQuery").Interval when typeis(v, "*innerQuery"), cast(v, "*innerQuery").StorageInterval when typeis(v, "*innerQuery"), *cast(v, "*exprData") when typeis(v, "*exprData"), *cast(v, "*innerCallExpr") when typeis(v, "*innerCallExpr"), *cast(v, "*innerSelectItem") when typeis(v, "*innerSelectItem"), *cast(v, "*innerOrderByExpr") when typeis(v, "*innerOrderByExpr"), *cast(v, "*innerBinaryExpr") when typeis(v, "*innerBinaryExpr"), *cast(v, "*RegexExpr") when typeis(v, "*RegexExpr"), *cast(v, "*LikeExpr") when typeis(v, "*LikeExpr"), *cast(v, "*InExpr") when typeis(v, "*InExpr"), *cast(v, "*EqualsExpr") when typeis(v, "*EqualsExpr"), *cast(v, "*NumberLiteral") when typeis(v, "*NumberLiteral"), *cast(v, "*FieldExpr") when typeis(v, "*FieldExpr")
 //@   ensures (result == nil && typeis(v, "*innerQuery")) ==> (cast(v, "*innerQuery").Condition == docCondition(data) && cast(v, "*innerQuery").Having == docHaving(data) && cast(v, "*innerQuery").SelectItems == docSelect(data) && cast(v, "*innerQuery").OrderByItems == docOrderBy(data) && cast(v, "*innerQuery").GroupBy == docGroupBy(data) && cast(v, "*innerQuery").MetricName == docMetricName(data) && cast(v, "*innerQuery").Namespace == docNamespace(data) && cast(v, "*innerQuery").Limit == docLimit(data) && cast(v, "*innerQuery").Explain == docExplain(data) && cast(v, "*innerQuery").AllFields == docAllFields(data) && cast(v, "*innerQuery").IntervalRatio == docIntervalRatio(data) && cast(v, "*innerQuery").AutoGroupByTime == docAutoGroupByTime(data) && cast(v, "*innerQuery").TimeRange.Start == docRangeStart(data) && cast(v, "*innerQuery").TimeRange.End == docRangeEnd(data) && int64(cast(v, "*innerQuery").Interval) == docInterval(data) && int64(cast(v, "*innerQuery").StorageInterval) == docStorageInterval(data))
 //@   ensures (result == nil && typeis(v, "*exprData")) ==> cast(v, "*exprData").Type == docType(data)
+//@   ensures (result == nil && typeis(v, "*innerCallExpr")) ==> (int(cast(v, "*innerCallExpr").FuncType) == docFuncType(data) && cast(v, "*innerCallExpr").Params == docParams(data))
+//@   ensures typeis(v, "*innerCallExpr") ==> (result == nil) == docOKCall(data)
 //@ end
 //@ # (the envelope tag decoded into an exprData is the document's tag)
 //@ func Query.UnmarshalJSON
@@ -94,8 +103,13 @@ package stmt
 //@ end
 //@ func unmarshalCall
 //@   prop C17
+//@   arith math
 //@   modifies *
 //@   ensures result1 == nil ==> typeis(result0, "*CallExpr")
+//@   ensures[a_function_call_is_rebuilt_with_its_function_and_every_parameter_in_order] result1 == nil ==> (int(cast(result0, "*CallExpr").FuncType) == docFuncType(value) && len(cast(result0, "*CallExpr").Params) == len(docParams(value)) && forall(i, 0, len(docParams(value)), cast(result0, "*CallExpr").Params[i] == cast(exprOf(docParams(value)[i]), "Expr")))
+//@   ensures[decoding_fails_only_if_the_document_or_a_parameter_cannot_be_decoded] (result1 != nil) ==> (!docOKCall(value) || exists(i, 0, len(docParams(value)), !exprOK(docParams(value)[i])))
+//@   loop 1 invariant rangeindex >= -1 && rangeindex < len(innerExpr.Params) && len(expr.Params) == rangeindex + 1 && forall(i, 0, rangeindex + 1, expr.Params[i] == cast(exprOf(innerExpr.Params[i]), "Expr") && exprOK(innerExpr.Params[i]))
+//@   loop 1 invariant expr != nil && int(expr.FuncType) == docFuncType(value) && innerExpr.Params == docParams(value)
 //@ end
 //@ func unmarshalSelectItem
 //@   prop C17
